@@ -54,11 +54,13 @@ structure ISess where
   stack : List IView
   rdr : Rdr
 
+def iUnwindFrom (st : IStore) (c : IView) : List IView → IStore
+  | [] => st.release c
+  | p :: rest => iUnwindFrom st (p.absorb c) rest
+
 def iUnwindStack (st : IStore) : List IView → IStore
   | [] => st
-  | [v] => st.release v
-  | c :: p :: rest => iUnwindStack st (p.absorb c :: rest)
-termination_by vs => vs.length
+  | c :: rest => iUnwindFrom st c rest
 
 namespace ISess
 
@@ -284,25 +286,23 @@ theorem writeBack_rel {p c : View} {ip ic : IView} (hp : VRel p ip) (hc : VRel c
   ⟨View.writeBack_wf hp.1 hc.1 hf, (View.writeBack_cap hp.1 hf).trans hp.2.1, by
     rw [View.writeBack_done hp.1 hc.1 hf, hp.2.2, hc.2.2]; rfl⟩
 
+theorem unwindFrom_rel (st : Store) (ist : IStore) (hs : SRel st ist) :
+    ∀ (rest : List View) (irest : List IView) (c : View) (ic : IView),
+    stackOk st.room (c :: rest) → stackRel (c :: rest) (ic :: irest) →
+    SRel (unwindFrom st c rest) (iUnwindFrom ist ic irest)
+  | [], [], c, ic, hok, hr => release_rel hs hr.1 hok.2
+  | p :: rest, ip :: irest, c, ic, hok, hr =>
+    unwindFrom_rel st ist hs rest irest _ _ (stackOk_pop hok) ⟨writeBack_rel hr.2.1 hr.1 hok.2.1, hr.2.2⟩
+  | [], _ :: _, c, ic, hok, hr => hr.2.elim
+  | _ :: _, [], c, ic, hok, hr => hr.2.elim
+
 theorem unwindStack_rel (st : Store) (vs : List View) : ∀ (ist : IStore) (ivs : List IView),
     SRel st ist → stackOk st.room vs → stackRel vs ivs →
     SRel (unwindStack st vs) (iUnwindStack ist ivs) := by
-  fun_induction unwindStack st vs with
-  | case1 =>
-    intro ist ivs hs _ hr
-    cases ivs with
-    | nil => simpa [iUnwindStack] using hs
-    | cons a b => exact hr.elim
-  | case2 v =>
-    intro ist ivs hs hok hr
-    match ivs, hr with
-    | [iv], hr => simpa [iUnwindStack] using release_rel hs hr.1 hok.2
-  | case3 c p rest ih =>
-    intro ist ivs hs hok hr
-    match ivs, hr with
-    | ic :: ip :: irest, hr =>
-      rw [iUnwindStack]
-      exact ih ist _ hs (stackOk_pop hok) ⟨writeBack_rel hr.2.1 hr.1 hok.2.1, hr.2.2⟩
+  intro ist ivs hs hok hr
+  match vs, ivs, hr with
+  | [], [], hr => exact hs
+  | c :: rest, ic :: irest, hr => exact unwindFrom_rel st ist hs rest irest c ic hok hr
 
 namespace Rel
 
@@ -567,11 +567,14 @@ theorem IStore.release_same (s : IStore) (v : IView) : (s.release v).Same s := b
   unfold IStore.release IStore.Same
   cases hk : s.kind <;> simp [hk]
 
+theorem iUnwindFrom_same (st : IStore) : ∀ (rest : List IView) (c : IView), (iUnwindFrom st c rest).Same st
+  | [], c => IStore.release_same _ _
+  | p :: rest, c => iUnwindFrom_same st rest _
+
 theorem iUnwindStack_same (st : IStore) (vs : List IView) : (iUnwindStack st vs).Same st := by
-  fun_induction iUnwindStack st vs with
-  | case1 => exact IStore.Same.rfl' _
-  | case2 v => exact IStore.release_same _ _
-  | case3 c p rest ih => exact ih
+  cases vs with
+  | nil => exact IStore.Same.rfl' _
+  | cons c rest => exact iUnwindFrom_same st rest c
 
 namespace ISess
 
